@@ -46,14 +46,77 @@ class ArrayProgram:
         self.version = {}
         self.defs = []       # lean text
         self.have_T = False; self.have_total = False
+        # --- state of the spectrum the method was GIVEN (`self`), for the "operands survive" clause:
+        #     selfv[k] = None (still the argument) or the Lean definition of its current content after in-place updates;
+        #     alias[name] = 'data' | 'mask' for local names bound to `self.data` / `self.mask` themselves (numpy views of
+        #     the caller's buffers: an in-place operation through such a name is an update of `self`);
+        #     views = local names bound to a non-fresh expression over those buffers (reverse_array(self.mask), …)
+        self.selfv = {'data': None, 'mask': None}
+        self.alias = {}
+        self.views = set()
+        self.mutations = []  # source text of every statement that updates `self`
+
+    # ---- the caller's spectrum
+    def self_term(self, which, idx):
+        d = self.selfv[which]
+        if d is None:
+            return '(%s %s)' % ({'data': 'x', 'mask': 'm'}[which], idx)
+        return '(%s %s %s)' % (d, ARGS, idx)
+
+    def self_target(self, node):
+        """'data' / 'mask' if `node` denotes the caller's own buffer (self.data, self.mask, a local alias of one of them,
+        <alias>.data), None if it is a local array; TranslateError for anything that may share memory with `self` in a way
+        this translator does not follow"""
+        nm = T.callee_name(node) if isinstance(node, (ast.Name, ast.Attribute)) else None
+        if nm == 'self.data': return 'data'
+        if nm == 'self.mask': return 'mask'
+        if nm == 'self' or (nm or '').startswith('self.'):
+            raise TranslateError('%s: in-place update of %s' % (self.prefix, nm))
+        if isinstance(node, ast.Name):
+            if node.id in self.alias: return self.alias[node.id]
+            if node.id in self.views:
+                raise TranslateError('%s: in-place update of `%s`, a view of the input spectrum' % (self.prefix, node.id))
+            return None
+        if isinstance(node, ast.Attribute) and node.attr == 'data' and isinstance(node.value, ast.Name):
+            return self.self_target(node.value)
+        raise TranslateError('%s: in-place target %s' % (self.prefix, _one_line(ast.unparse(node))))
+
+    def fresh(self, node):
+        """does evaluating `node` allocate a new array (True), or can it hand out memory of `self` (False)?"""
+        nm = T.callee_name(node) if isinstance(node, (ast.Name, ast.Attribute)) else None
+        if nm in ('self', 'self.data', 'self.mask'):
+            return False
+        if isinstance(node, ast.Name):
+            return node.id not in self.alias and node.id not in self.views
+        if isinstance(node, ast.Call):
+            cn = T.callee_name(node.func)
+            if cn in ('reverse_array', 'numpy.ma.masked_array') and len(node.args) == 1:
+                return self.fresh(node.args[0])      # a view of / a wrapper around its argument
+            return True                              # numpy.where, logical_*: new arrays
+        return True                                  # arithmetic, comparisons, literals
+
+    def update_self(self, which, term, stmt):
+        if self.views:
+            raise TranslateError('%s: the input spectrum is updated while views of it are alive (%s)' % (self.prefix, sorted(self.views)))
+        v = self.version.get('self_' + which, 0) + 1
+        self.version['self_' + which] = v
+        d = '%s_self_%s_%d' % (self.prefix, which, v)
+        self.defs.append('/-- %s: `%s`  — updates the spectrum the method was called on -/'
+                         % (T.srcline(stmt, self.path), _one_line(ast.get_source_segment(self.src, stmt))))
+        self.defs.append('def %s %s : %s := %s' % (d, PARAMS, {'data': 'Rat', 'mask': 'Bool'}[which], term))
+        self.selfv[which] = d
+        self.mutations.append(_one_line(ast.get_source_segment(self.src, stmt)))
 
     # ---- expressions
     def leaf(self, node, idx):
         nm = T.callee_name(node) if isinstance(node, (ast.Name, ast.Attribute)) else None
         if nm in ('self', 'self.data'):
-            return 'R', '(x %s)' % idx
+            return 'R', self.self_term('data', idx)
         if nm == 'self.mask':
-            return 'B', '(m %s)' % idx
+            return 'B', self.self_term('mask', idx)
+        if isinstance(node, ast.Name) and node.id in self.alias:
+            k = self.alias[node.id]
+            return {'data': 'R', 'mask': 'B'}[k], self.self_term(k, idx)
         if nm == 'total_per_entry':
             if not self.have_total: raise TranslateError('%s: total_per_entry used before its definition' % self.prefix)
             return 'N', '(total %s)' % idx
@@ -158,29 +221,69 @@ class ArrayProgram:
         if isinstance(s, ast.Assign) and len(s.targets) == 1:
             t = s.targets[0]
             if isinstance(t, ast.Name):
-                kind, term = self.expr(s.value, 'i')
+                v = s.value
+                vn = T.callee_name(v) if isinstance(v, (ast.Name, ast.Attribute)) else None
+                # binding a local name to the caller's own buffer: no new array, the name IS self.data / self.mask
+                if vn in ('self.data', 'self.mask') or (isinstance(v, ast.Name) and v.id in self.alias):
+                    which = {'self.data': 'data', 'self.mask': 'mask'}.get(vn) or self.alias[v.id]
+                    self.env.pop(t.id, None); self.views.discard(t.id)
+                    self.alias[t.id] = which
+                    self.defs.append('/- %s: `%s`  — `%s` is the input spectrum\'s own %s from here on (no new array) -/'
+                                     % (T.srcline(s, self.path), _one_line(ast.get_source_segment(self.src, s)), t.id, which))
+                    return
+                if vn == 'self':
+                    raise TranslateError('%s: local alias of the whole input spectrum: %s' % (self.prefix, text))
+                if isinstance(v, ast.Name) and v.id in self.env:
+                    raise TranslateError('%s: second name for the local array `%s`: %s' % (self.prefix, v.id, text))
+                kind, term = self.expr(v, 'i')
                 if kind == 'S': raise TranslateError('%s: scalar assignment %s' % (self.prefix, text))
                 if kind == 'N': raise TranslateError('%s: integer array alias %s' % (self.prefix, text))
-                self.define(t.id, kind, term, s); return
-            # masked store  v.data[cond] = c   /  v[cond] = c
+                isfresh = self.fresh(v)
+                self.alias.pop(t.id, None); self.views.discard(t.id)
+                self.define(t.id, kind, term, s)
+                if not isfresh: self.views.add(t.id)
+                return
+            # masked store  v.data[cond] = c   /  v[cond] = c   (v a local array, or the input spectrum's data / mask)
             if isinstance(t, ast.Subscript):
                 base = t.value
+                which = self.self_target(base)
+                kc, c = self.expr(t.slice, 'i')
+                if kc != 'B': raise TranslateError('%s: masked store %s' % (self.prefix, text))
+                if isinstance(s.value, ast.Constant) and isinstance(s.value.value, bool):
+                    kv, v = 'C', ('true' if s.value.value else 'false')
+                else:
+                    kv, v = self.expr(s.value, 'i')
+                if which is not None:
+                    if (which, kv) not in (('data', 'S'), ('mask', 'C')): raise TranslateError('%s: masked store %s' % (self.prefix, text))
+                    self.update_self(which, '(if %s then %s else %s)' % (c, v, self.self_term(which, 'i')), s); return
                 if isinstance(base, ast.Attribute) and base.attr == 'data': base = base.value
                 if isinstance(base, ast.Name) and base.id in self.env and self.env[base.id][0] == 'R':
-                    kc, c = self.expr(t.slice, 'i')
-                    kv, v = self.expr(s.value, 'i')
-                    if kc != 'B' or kv != 'S': raise TranslateError('%s: masked store %s' % (self.prefix, text))
+                    if kv != 'S': raise TranslateError('%s: masked store %s' % (self.prefix, text))
                     _, old = self.expr(base, 'i')
                     self.define(base.id, 'R', '(if %s then %s else %s)' % (c, v, old), s); return
             raise TranslateError('%s: assignment %s' % (self.prefix, text))
-        if isinstance(s, ast.AugAssign) and isinstance(s.target, ast.Name) and s.target.id in self.env:
-            kind0, old = self.expr(s.target, 'i')
-            kind, term = self.expr(s.value, 'i')
-            if kind0 != 'R' or kind not in 'RS': raise TranslateError('%s: augmented assignment kinds' % self.prefix)
-            ops = {ast.Add: '+', ast.Sub: '-', ast.Mult: '*', ast.Div: '/'}
-            for k, v in ops.items():
-                if isinstance(s.op, k):
-                    self.define(s.target.id, 'R', '(%s %s %s)' % (old, v, term), s); return
+        if isinstance(s, ast.AugAssign):
+            which = self.self_target(s.target)
+            arith = {ast.Add: '+', ast.Sub: '-', ast.Mult: '*', ast.Div: '/'}
+            logic = {ast.BitOr: '||', ast.BitAnd: '&&', ast.BitXor: '^^'}
+            if which is not None:
+                # numpy evaluates an in-place ufunc whose operand overlaps the output as if the operand had been copied first
+                # (overlap handling of ufuncs), so `a |= reverse_array(a)` is pointwise  a[i] | a[mirror i]  on the old content
+                old = self.self_term(which, 'i')
+                kind, term = self.expr(s.value, 'i')
+                table, ok = (arith, 'RS') if which == 'data' else (logic, 'B')
+                for k, v in table.items():
+                    if isinstance(s.op, k) and kind in ok:
+                        self.update_self(which, '(%s %s %s)' % (old, v, term), s); return
+                raise TranslateError('%s: in-place operator on the input spectrum: %s' % (self.prefix, text))
+            if isinstance(s.target, ast.Name) and s.target.id in self.env:
+                kind0, old = self.expr(s.target, 'i')
+                kind, term = self.expr(s.value, 'i')
+                table, ok = (arith, 'RS') if kind0 == 'R' else (logic, 'B')
+                if kind0 not in 'RB' or kind not in ok: raise TranslateError('%s: augmented assignment kinds' % self.prefix)
+                for k, v in table.items():
+                    if isinstance(s.op, k):
+                        self.define(s.target.id, kind0, '(%s %s %s)' % (old, v, term), s); return
         raise TranslateError('%s: statement %s' % (self.prefix, _one_line(ast.unparse(s))))
 
 
@@ -218,7 +321,7 @@ def gen_method(fn, src, path, new_defaults):
     kd, data = P.expr(call.args[0], 'i')
     if kd != 'R': raise TranslateError('%s: constructor data' % name)
     kw = {k_.arg: k_.value for k_ in call.keywords}
-    if set(kw) - {'mask', 'data_folded', 'pop_ids', 'mask_corners', 'check_folding'}:
+    if set(kw) - {'mask', 'data_folded', 'pop_ids', 'mask_corners', 'check_folding', 'copy'}:
         raise TranslateError('%s: constructor keywords %s' % (name, sorted(kw)))
     if 'mask' not in kw: raise TranslateError('%s: constructor without mask' % name)
     km, mask = P.expr(kw['mask'], 'i')
@@ -238,6 +341,16 @@ def gen_method(fn, src, path, new_defaults):
     out.append('/-- mask_corners as passed, or the default of Spectrum.__new__ -/')
     out.append('def %s_maskCorners : Bool := %s' % (name, corners))
     out.append('def %s_popIdsFromSelf : Bool := %s' % (name, 'true' if pop == 'self.pop_ids' else 'false'))
+    # 2b. what the method leaves behind in the spectrum it was called on (the operand must survive: property clause
+    #     "masks … survive"; `fold`/`unfold` are documented as not in-place)
+    out.append('/-- data / mask of the spectrum `%s` was called on, when `%s` returns (in-place statements: %s) -/'
+               % (name, name, '; '.join('`%s`' % t for t in P.mutations) if P.mutations else 'none'))
+    out.append('def %s_selfDataAfter %s : Rat := %s' % (name, PARAMS, P.self_term('data', 'i')))
+    out.append('def %s_selfMaskAfter %s : Bool := %s' % (name, PARAMS, P.self_term('mask', 'i')))
+    shares = not (P.fresh(call.args[0]) and P.fresh(kw['mask']))
+    cpy = const_bool(kw['copy'], 'copy') if 'copy' in kw else new_defaults['copy']
+    out.append('/-- the constructor is handed memory of the input spectrum (data or mask argument not a new array) and does not copy it -/')
+    out.append('def %s_outSharesSelf : Bool := (%s && ! %s)' % (name, 'true' if shares else 'false', cpy))
     # 3. tail: outfs.extrap_x = self.extrap_x ; return outfs
     tail = [ast.unparse(s).replace(' ', '') for s in body[k+1:]]
     target = ctor.targets[0].id
@@ -311,6 +424,24 @@ def gen_structural(cls, src, path, nsrc, nfns, npath):
 
 
 PY3_NDARRAY_MISSING = {'__div__', '__rdiv__', '__idiv__'}
+
+def _no_side_effects(what, body, store_ok, norm, calls_ok=()):
+    """every store goes to an allowed target; every expression statement is the folding check, a logger call or one of `calls_ok`;
+    no `del`, no `global`, no nested function"""
+    for st in body:
+        for a in ast.walk(st):
+            if isinstance(a, (ast.Assign, ast.AugAssign, ast.AnnAssign)):
+                tgs = a.targets if isinstance(a, ast.Assign) else [a.target]
+                for t in tgs:
+                    for tt in (t.elts if isinstance(t, (ast.Tuple, ast.List)) else [t]):
+                        if not store_ok(tt):
+                            raise TranslateError('%s: store into %s' % (what, norm(tt)))
+            elif isinstance(a, ast.Expr):
+                c = norm(a.value)
+                if not (c == 'self._check_other_folding(other)' or c.startswith('logger.') or c in calls_ok):
+                    raise TranslateError('%s: statement with a possible side effect: %s' % (what, c))
+            elif isinstance(a, (ast.Delete, ast.Global, ast.Nonlocal, ast.FunctionDef, ast.Lambda, ast.NamedExpr)):
+                raise TranslateError('%s: %s' % (what, type(a).__name__))
 
 def gen_operators(cls, src, path, new_defaults):
     """the two `for method in [...]: exec(template % {'method': method})` loops, and _check_other_folding"""
@@ -399,6 +530,7 @@ def gen_operators(cls, src, path, new_defaults):
     out.append('/-- binary template: the constructor copies data and mask (`copy` keyword as passed, or the default of Spectrum.__new__) -/')
     out.append('def binopCopies : Bool := %s' % (new_defaults['copy'] if cp is None else cp.lower()))
     if norm(b[-1]) != 'returnoutfs': raise TranslateError('binary template: return')
+    _no_side_effects('binary template', b, store_ok=lambda t: isinstance(t, ast.Name), norm=norm)
     # ---- in-place template
     fn = ast.parse(inp_t % {'method': '__OP__'}).body[0]
     b = fn.body
@@ -419,6 +551,12 @@ def gen_operators(cls, src, path, new_defaults):
                 if norm(tg) != 'self.extrap_x':
                     raise TranslateError('in-place template: assignment to %s' % norm(tg))
     if norm(b[-1]) != 'returnself': raise TranslateError('in-place template: return')
+    _no_side_effects('in-place template', b, store_ok=lambda t: norm(t) in ('self.mask', 'self.extrap_x'), norm=norm,
+                     calls_ok=('self.data.__OP__(other.data)', 'self.data.__OP__(other)'))
+    out.append('/-- neither template contains a statement that stores into, or calls a method of, `other` (binary: nor of `self`):\n'
+               '    assignments go to local names (in place: `self.mask`, `self.extrap_x`), expression statements are the folding check,\n'
+               '    `self.data.<op>(…)` (in place) and logger calls -/')
+    out.append('def templatesLeaveOperands : Bool := true')
     out.append('/-- in-place template: data updated in place, `self.mask = mask_or(self.mask, other.mask)` for masked operands,\n    folded/pop_ids of self untouched, returns self -/')
     out.append('def inplaceShapeOk : Bool := true')
     # ---- _check_other_folding
@@ -517,6 +655,48 @@ def gen_autofold(isrc, itree, ipath):
         if need not in rows: raise TranslateError('Inference.%s: no `model = model.fold()` guard found' % need)
     if len(set(rows)) != len(rows): raise TranslateError('autofold: more than one guard in a function')
     out.append('def autofoldFunctions : List String := [%s]' % ', '.join(json.dumps(r) for r in rows))
+    # the functions of the likelihood family (every module-level function with the parameters `model, data`): statements that store
+    # into an argument — `model.mask = …`, `data[...] = …`, `model *= …`, `model.mask |= …`, `del model[…]`, or a call of a mutating
+    # method on it.  Rebinding the local NAME (`model = model.fold()`, `model, data = intersect_masks(model, data)`) is not a store,
+    # but the name may still denote the caller's object afterwards (intersect_masks returns its arguments when the masks agree),
+    # so in-place operators on the names are reported whether or not the name was rebound before.
+    fam = []; stores = []
+    MUTATORS = {'mask_corners', 'fill', 'put', 'resize', 'sort', 'itemset', 'setflags', 'harden_mask', 'soften_mask', 'unshare_mask',
+                'shrink_mask', '__setitem__', '__setmask__', 'set_fill_value', 'partition', 'setfield', 'byteswap'}
+    for fn in [n for n in itree.body if isinstance(n, ast.FunctionDef)]:
+        an = [a.arg for a in fn.args.args]
+        if an[:2] != ['model', 'data']: continue
+        fam.append(fn.name)
+        def root(t):
+            while isinstance(t, (ast.Attribute, ast.Subscript)): t = t.value
+            return t.id if isinstance(t, ast.Name) else None
+        for a in ast.walk(fn):
+            tgs = []
+            if isinstance(a, ast.Assign): tgs = [t for t in a.targets]
+            elif isinstance(a, ast.AugAssign):
+                if root(a.target) in ('model', 'data'):
+                    stores.append('%s: %s' % (fn.name, _one_line(ast.unparse(a))))
+                continue
+            elif isinstance(a, ast.Delete): tgs = a.targets
+            elif isinstance(a, ast.Call) and isinstance(a.func, ast.Attribute) and root(a.func) in ('model', 'data'):
+                if a.func.attr in MUTATORS or (a.func.attr.startswith('__i') and a.func.attr.endswith('__')):
+                    stores.append('%s: %s' % (fn.name, _one_line(ast.unparse(a))))
+                if any(k.arg == 'out' for k in a.keywords):
+                    stores.append('%s: %s' % (fn.name, _one_line(ast.unparse(a))))
+                continue
+            elif isinstance(a, ast.Call) and any(k.arg == 'out' and root(k.value) in ('model', 'data') for k in a.keywords):
+                stores.append('%s: %s' % (fn.name, _one_line(ast.unparse(a)))); continue
+            for t in tgs:
+                for tt in (t.elts if isinstance(t, (ast.Tuple, ast.List)) else [t]):
+                    if isinstance(tt, (ast.Attribute, ast.Subscript)) and root(tt) in ('model', 'data'):
+                        stores.append('%s: %s' % (fn.name, _one_line(ast.unparse(a))))
+    for need in ('ll', 'll_per_bin', 'll_multinom', 'll_multinom_per_bin', 'optimal_sfs_scaling', 'optimally_scaled_sfs',
+                 'linear_Poisson_residual', 'Anscombe_Poisson_residual'):
+        if need not in fam: raise TranslateError('Inference.%s(model, data, …) not found' % need)
+    out.append('/-- module-level functions of Inference.py with parameters `(model, data, …)` -/')
+    out.append('def likelihoodFamily : List String := [%s]' % ', '.join(json.dumps(r) for r in fam))
+    out.append('/-- their statements that store into `model` / `data` (attribute or item assignment, in-place operator, mutating method, out=) -/')
+    out.append('def likelihoodStoresIntoArgs : List String := [%s]' % ', '.join(json.dumps(r) for r in stores))
     out.append('def autofoldTable : List (String × (Bool → Bool → Bool → Bool)) := [%s]'
                % ', '.join('(%s, autofold_%s)' % (json.dumps(r), r) for r in rows))
     return '\n'.join(out)
